@@ -847,7 +847,12 @@ def _field_aliases(j):
     by_last = defaultdict(list)
     for pth in cur:
         by_last[pth.split("::")[-1]].append(pth)
-    for path, variants in table.items():
+    try:
+        import os
+        alt = json.load(open(os.path.join(os.path.dirname(os.path.dirname(os.path.abspath(__file__))), "anchors_adts_alt.json")))
+    except Exception:
+        alt = {}
+    for path, variants in list(table.items()) + list(alt.items()):
         a = cur.get(path)
         if a is None:
             c = by_last.get(path.split("::")[-1], [])
@@ -868,12 +873,12 @@ def _field_aliases(j):
             if len(ofields) == len(nfields) and [t for _, t in ofields] == [t for _, t in nfields]:
                 for (on, _), (nn, _) in zip(ofields, nfields):
                     if on != nn:
-                        out[(a["path"], nn)] = on
+                        out.setdefault((a["path"], nn), on)
                 continue
             for on, ot in missing:
                 c = [nn for nn, nt in extra if nt == ot]
                 if len(c) == 1 and sum(1 for n2, t2 in missing if t2 == ot) == 1:
-                    out[(a["path"], c[0])] = on
+                    out.setdefault((a["path"], c[0]), on)
     return out
 
 
